@@ -65,10 +65,10 @@ func c17Scenarios(level int) []c17Scenario {
 	insK := func(i int) []rm.Op { return []rm.Op{opInsert("K", c17K[i], rm.Row{"k": str("x"), "v": one(int64(i))})} }
 	monitor := []rm.Op{{Op: "MONITOR"}}
 	s := []c17Scenario{
-		{"counter: 2 x (cnt+=1)", [][][]rm.Op{{inc("a")}, {inc("b")}}, 1},
+		{"counter: 2 x (cnt+=1)", [][][]rm.Op{{inc("a")}, {inc("b")}}, 2},
 		{"compare-and-set: 2 x (wait cnt==0; cnt:=v)", [][][]rm.Op{{cas(1)}, {cas(2)}}, 1},
 		{"insert-if-absent on a unique index", [][][]rm.Op{{insK(0)}, {insK(1)}}, 2},
-		{"move a reference vs drop it", [][][]rm.Op{{{opUpdate("P", c17P[1], rm.Row{"qs": uset(c17Q)})}}, {{opUpdate("P", c17P[0], rm.Row{"qs": uset()})}}}, 1},
+		{"move a reference vs drop it", [][][]rm.Op{{{opUpdate("P", c17P[1], rm.Row{"qs": uset(c17Q)})}}, {{opUpdate("P", c17P[0], rm.Row{"qs": uset()})}}}, 2},
 		{"delete the referrer vs add a weak reference", [][][]rm.Op{{{opDelete("P", c17P[0])}}, {{opInsert("W", c17W, rm.Row{"w": uset(c17Q)})}}}, 1},
 		{"monitor registration vs transaction", [][][]rm.Op{{inc("a")}, {monitor}}, 0},
 		{"monitor registration vs two transactions", [][][]rm.Op{{inc("a"), inc("b")}, {monitor}}, 1},
@@ -121,6 +121,7 @@ func (o c17Obs) sig() string {
 type c17Run struct {
 	sys     *sys.Sys
 	recs    []*sys.Recorder
+	recIDs  []string // the monitor id (JSON) each entry of recs stands for
 	all     map[string]*ovsdb.MonitorRequest
 	obs     c17Obs
 	regInit []json.RawMessage
@@ -136,12 +137,22 @@ func newC17Run(dbs *schemas.DB, sc c17Scenario) *c17Run {
 	for _, t := range dbs.Tables() {
 		r.all[t] = &ovsdb.MonitorRequest{Columns: dbs.Columns(t), Select: ovsdb.NewDefaultMonitorSelect()}
 	}
+	// the monitors attached beforehand share one connection (a server keeps its monitors per connection)
+	var rec0 *sys.Recorder
+	var cl0 *rpc2.Client
 	for i := 0; i < sc.monitors; i++ {
-		rec, _, _, err := r.sys.AddMonitor("monitor_cond", fmt.Sprintf(`"pre%d"`, i), r.all)
+		id := fmt.Sprintf(`"pre%d"`, i)
+		var err error
+		if i == 0 {
+			rec0, cl0, _, err = r.sys.AddMonitor("monitor_cond", id, r.all)
+		} else {
+			_, _, _, err = r.sys.AddMonitorOn(rec0, cl0, "monitor_cond", id, r.all)
+		}
 		if err != nil {
 			panic(err)
 		}
-		r.recs = append(r.recs, rec)
+		r.recs = append(r.recs, rec0)
+		r.recIDs = append(r.recIDs, id)
 	}
 	return r
 }
@@ -191,9 +202,18 @@ func canonNote(n sys.Note) string {
 func (r *c17Run) finish(ref *rm.Schema) {
 	st := r.sys.State()
 	r.obs.dump = st.Dump()
-	for _, rec := range r.recs {
+	taken := map[*sys.Recorder][]sys.Note{}
+	for i, rec := range r.recs {
+		if _, ok := taken[rec]; !ok {
+			taken[rec] = rec.Take()
+		}
 		var seq []string
-		for _, n := range rec.Take() {
+		for _, n := range taken[rec] {
+			// a connection's recorder sees the notifications of all its monitors: keep this monitor's
+			var params []json.RawMessage
+			if err := json.Unmarshal(n.Params, &params); err == nil && len(params) > 0 && string(params[0]) != r.recIDs[i] {
+				continue
+			}
 			seq = append(seq, canonNote(n))
 		}
 		r.obs.notes = append(r.obs.notes, strings.Join(seq, " -> "))
